@@ -227,6 +227,17 @@ def rule_json_sibling(ctx):
                 if cb is not None:
                     chain.append('closure:' + ','.join(sorted(t['callee']['name'] for _, t in cb.calls() if t.get('callee'))))
         groups.setdefault(raw_ty[deps[0]], []).append((n, tuple(chain)))
+        # a list of strings of the map must be read from a raw field whose entries may be null ("null entries ... read as empty
+        # strings" is part of the property statement): the raw element type is an Option
+        sm_ty = {fl['name']: fl['ty'] for fl in anchors.fields(sm)}.get(n, '')
+        if 'String' in sm_ty and ('[' in sm_ty or 'Vec<' in sm_ty):
+            rt = raw_ty[deps[0]]
+            ok = 'Vec<std::option::Option<' in rt.replace(' ', '')
+            r.site('SourceMap.%s is read from raw `%s: %s` whose entries may be null' % (n, deps[0], rt), s['s'], 'ok' if ok else 'violation')
+            if not ok:
+                r.violation('nullable:%s' % n, s['s'], tf.path,
+                            'the raw field `%s: %s` that feeds SourceMap.%s has no nullable entries: a document with a null entry in '
+                            'this array is rejected instead of reading the entry as an empty string' % (deps[0], rt, n))
     for ty, lst in sorted(groups.items()):
         if len(lst) < 2:
             continue
